@@ -374,7 +374,7 @@ func (e *Env) markerOf(i int, c *Created) int64 {
 func quote(col string) string { return "`" + col + "`" }
 
 // ReadPaths of the grammar.
-var ReadPaths = []string{"find", "find-ptr", "first", "take", "last", "first-key", "first-inline", "first-pk-arg", "find-pk-list", "first-nilptr",
+var ReadPaths = []string{"find", "find-ptr", "first", "take", "last", "first-key", "first-inline", "take-inline", "last-inline", "find-inline", "find-reused", "find-in-batches", "first-pk-arg", "find-pk-list", "first-nilptr",
 	"find-array", "find-presized", "scan", "rows-scanrows", "take-map", "take-map-byvalue", "take-map-model", "first-map-model", "find-maps", "find-maps-model"}
 
 // ModelMapRead reports whether the read path loads into maps with the model named.
@@ -642,7 +642,64 @@ func (e *Env) Check(c *Created, reads []string) error {
 					return err
 				}
 			}
-		case "first-key", "first-inline":
+		case "find-reused":
+			// a destination slice that served earlier queries: every slot up to its capacity holds an old record
+			out := reflect.New(reflect.SliceOf(M.Type))
+			out.Elem().Set(reflect.MakeSlice(reflect.SliceOf(M.Type), c.N+2, c.N+2))
+			for i := 0; i < c.N+2; i++ {
+				for _, l := range M.Leaves {
+					if l.Kind.distinct != nil {
+						l.Set(out.Elem().Index(i), l.Kind.Distinct(77))
+					}
+				}
+			}
+			if err := e.T().Where(between, lo, hi).Order(quote(ml.DBName)).Find(out.Interface()).Error; err != nil {
+				return fmt.Errorf("%s: %v", path, err)
+			}
+			if out.Elem().Len() != c.N {
+				return fmt.Errorf("%s: %d rows for %d records", path, out.Elem().Len(), c.N)
+			}
+			for i := 0; i < c.N; i++ {
+				if err := cmpStruct(path, i, out.Elem().Index(i)); err != nil {
+					return err
+				}
+			}
+		case "find-in-batches":
+			// FindInBatches reuses one destination slice for every batch (needs a prioritized key)
+			if len(keys) != 1 && auto == nil {
+				continue
+			}
+			byMk := map[int64]int{}
+			for i := 0; i < c.N; i++ {
+				byMk[e.markerOf(i, c)] = i
+			}
+			results := reflect.New(reflect.SliceOf(M.Type))
+			seen := 0
+			var ferr error
+			err := e.T().Where(between, lo, hi).FindInBatches(results.Interface(), 1+c.N%3, func(tx *gorm.DB, batch int) error {
+				for k := 0; k < results.Elem().Len() && ferr == nil; k++ {
+					rec := results.Elem().Index(k)
+					mv, _ := ml.Get(rec)
+					i, ok := byMk[mv.Int()]
+					if !ok {
+						ferr = fmt.Errorf("%s: batch %d holds a row with marker %d that was not created", path, batch, mv.Int())
+						break
+					}
+					seen++
+					ferr = cmpStruct(path, i, rec)
+				}
+				return ferr
+			}).Error
+			if ferr != nil {
+				return ferr
+			}
+			if err != nil {
+				return fmt.Errorf("%s: %v", path, err)
+			}
+			if seen != c.N {
+				return fmt.Errorf("%s: %d rows seen for %d records", path, seen, c.N)
+			}
+		case "first-key", "first-inline", "take-inline", "last-inline", "find-inline":
 			if len(keys) == 0 {
 				continue
 			}
@@ -657,7 +714,18 @@ func (e *Env) Check(c *Created, reads []string) error {
 						l.Set(dest.Elem(), v)
 					}
 				}
-				if err := tx.First(dest.Interface()).Error; err != nil {
+				var err error
+				switch path {
+				case "take-inline":
+					err = tx.Take(dest.Interface()).Error
+				case "last-inline":
+					err = tx.Last(dest.Interface()).Error
+				case "find-inline":
+					err = tx.Find(dest.Interface()).Error
+				default:
+					err = tx.First(dest.Interface()).Error
+				}
+				if err != nil {
 					return fmt.Errorf("%s: record %d: %v", path, i, err)
 				}
 				if err := cmpStruct(path, i, dest.Elem()); err != nil {
